@@ -21,7 +21,7 @@ TECHNIQUE = "exhaustive menu of wavelength sets x basis spectra x layouts x pref
 LEVEL_TEXT = "every combination of the menu is converted by irr2flux / flux2irr and compared with the closed-form law; the inverse, linearity, element-wise action along the stated axis and unit/plain agreement are decided exactly (1e-12)"
 LEVEL_NOTE = "pint registry as shipped; linearity makes the one-hot basis decisive"
 KE = ("exc", "msg", "api", "input", "axis")
-KV = ("api", "what", "input", "prefix", "layout")
+KV = ("api", "what", "input", "prefix", "layout", "wavelength_unit")
 
 H, C, NA = 6.62607015e-34, 299792458.0, 6.02214076e23
 PREFIX = {None: 1.0, "": 1.0, "milli": 1e-3, "micro": 1e-6, "nano": 1e-9}
@@ -33,7 +33,10 @@ def _v(rec, clause, sig, *a, **k):
 
 
 def units(tier, seed):
-    return [dict(direction=d, input=i, tier=tier) for d in ("irr2flux", "flux2irr") for i in ("plain", "pint")]
+    out = [dict(direction=d, input=i, tier=tier) for d in ("irr2flux", "flux2irr") for i in ("plain", "pint")]
+    # the unit-carrying route proper: quantity.to(unit, "flux", domain=wavelengths) / dreye.optional_to(..., domain=wavelengths)
+    out += [dict(direction=d, input="context", tier=tier) for d in ("irr2flux", "flux2irr")]
+    return out
 
 
 def _ref(direction, vals, wl_b, prefix):
@@ -45,9 +48,53 @@ def _mag(x):
     return np.asarray(x.magnitude if hasattr(x, "magnitude") else x, dtype=float)
 
 
+WL_UNITS = {"nm": 1.0, "micrometer": 1e-3, "m": 1e-9, "angstrom": 10.0}
+
+
+def _run_context(unit, rec, dreye):
+    direction, tier = unit["direction"], unit["tier"]
+    ureg = dreye.ureg
+    in_unit, out_dim = ("I", "E") if direction == "irr2flux" else ("E", "I")
+    rec.state((direction, "context"))
+    wsets = [tuple(WLS)] + list(itertools.combinations(WLS, 3)) + [(555.0,)]
+    for wl in wsets:
+        wl = np.array(wl)
+        k = len(wl)
+        spectra = [("onehot%d" % i, np.eye(k)[i]) for i in range(k)] + [("combo", np.array([(-1.0, 0.5, 2.0)[i % 3] for i in range(k)]))]
+        for (sname, sp), prefix, (wu, wf), route in itertools.product(spectra, ("", "milli", "micro", "nano"), WL_UNITS.items(), ("to", "optional_to")):
+            for lname, arr, w in (("1d", sp, wl), ("2d-last", np.stack([sp, 2 * sp, -sp]), wl), ("2d-colwl", np.multiply.outer(sp, np.array([1.0, -0.5])), wl[:, None])):
+                if tier == "quick" and lname != "1d" and (prefix not in ("", "micro") or sname not in ("combo", "onehot0")):
+                    continue
+                q = arr * ureg(in_unit)
+                wq = (w * wf) * ureg(wu)
+                tgt = prefix + out_dim
+                exp = _ref(direction, arr, np.asarray(w, dtype=float), prefix)
+                sig = dict(api=direction, input="context/" + route, prefix=prefix, layout=lname, axis="none", wavelength_unit=wu)
+                case = dict(wl=wl.tolist(), spectrum=sname, layout=lname, prefix=prefix, wavelength_unit=wu, route=route)
+                rec.path()
+                rec.trans()
+                try:
+                    out = q.to(tgt, "flux", domain=wq) if route == "to" else dreye.optional_to(q, tgt, domain=wq)
+                except Exception as e:  # noqa
+                    _v(rec, "e", dict(sig, **exc_sig(e)), "unit conversion in the flux context raised %r" % (e,), case,
+                       script="import numpy as np, dreye\nq = np.array(%r) * dreye.ureg(%r)\nw = np.array(%r) * dreye.ureg(%r)\nprint(q.to(%r, 'flux', domain=w))\n" % (np.asarray(arr).tolist(), in_unit, (np.asarray(w) * wf).tolist(), wu, tgt))
+                    rec.outcome("exception")
+                    continue
+                rec.distinct((direction, "context", tuple(wl), sname, lname, prefix, wu, route))
+                got = _mag(out)
+                ok = got.shape == np.shape(exp) and np.all(np.abs(got - exp) <= 1e-12 * np.abs(exp) + 1e-300)
+                rec.outcome("context-value/%s" % ("ok" if ok else "bad"))
+                if not ok:
+                    _v(rec, "e", dict(sig, what="value"), "the unit-carrying conversion (wavelengths in %s) differs from I*lambda/(h c N_A) (or its inverse)" % wu, case, observed=got.ravel()[:12], expected=np.ravel(exp)[:12],
+                       script="import numpy as np, dreye\nq = np.array(%r) * dreye.ureg(%r)\nw = np.array(%r) * dreye.ureg(%r)\nprint(q.to(%r, 'flux', domain=w))\n" % (np.asarray(arr).tolist(), in_unit, (np.asarray(w) * wf).tolist(), wu, tgt))
+    rec.sample(dict(direction=direction, input="context", wavelength_units=list(WL_UNITS)), cap=1)
+
+
 def run_unit(unit, rec):
     import dreye
 
+    if unit["input"] == "context":
+        return _run_context(unit, rec, dreye)
     direction, inp, tier = unit["direction"], unit["input"], unit["tier"]
     fn = getattr(dreye, direction)
     inv = getattr(dreye, "flux2irr" if direction == "irr2flux" else "irr2flux")
@@ -80,18 +127,28 @@ def run_unit(unit, rec):
                             lay.append(("%dd-axis-2" % rank, full, -2, wl))
                 if k == 1:
                     lay.append(("scalar", float(sp[0] + 1.5), None, float(wl[0])))
-                for lname, arr, axis, w in lay:
-                    if prefix in ("", "nano", "milli") and lname not in ("1d", "2d-axis0") and tier == "quick":
+                if k > 1:
+                    # no axis argument: the wavelengths broadcast against the spectrum as given (column of wavelengths, wavelength on axis 0);
+                    # a square block, so that a re-alignment with the last axis cannot show up as a shape error
+                    sq = np.multiply.outer(sp, 0.5 + np.arange(k, dtype=float)) + np.multiply.outer(np.arange(k, dtype=float), np.ones(k)) * (sname == "combo")
+                    lay.append(("2d-colwl-square", sq, None, wl[:, None], 0))
+                    lay.append(("2d-colwl", sq[:, :2], None, wl[:, None], 0))
+                for item in lay:
+                    lname, arr, axis, w = item[:4]
+                    wax = item[4] if len(item) > 4 else None
+                    if prefix in ("", "nano", "milli") and lname not in ("1d", "2d-axis0", "2d-colwl-square") and tier == "quick":
                         continue
                     if tier == "quick" and lname.startswith("4d") and sname not in ("combo", "onehot0"):
                         continue
                     for ru in ((None,) if (sname != "combo") else (None, True, False)):
                         arr_np = np.asarray(arr, dtype=float)
-                        ax = (arr_np.ndim - 1) if axis is None else axis % max(arr_np.ndim, 1)
+                        ax = wax if wax is not None else ((arr_np.ndim - 1) if axis is None else axis % max(arr_np.ndim, 1))
                         shp = [1] * arr_np.ndim
                         if arr_np.ndim:
                             shp[ax] = -1
                         wl_b = np.asarray(w, dtype=float).reshape(shp) if arr_np.ndim else float(w)
+                        if wax is not None:
+                            w = np.asarray(w, dtype=float)
                         exp = _ref(direction, arr_np, wl_b, prefix)
                         if inp == "pint":
                             a_in = arr_np * ureg(in_unit)
